@@ -1340,6 +1340,8 @@ func (mgr *Manager) UpdateTag(name string, operation UpdateTagOperation) error {
 				newTag := *tag
 				newTag.Matches = tag.Matches.Copy()
 				newTag.Uncertain = tag.Uncertain.Copy()
+				// the streams that are pending already stay pending, the ones changed here are decided right away
+				pending := tag.Uncertain
 				// update mark streamid tag matches without parsing the definition again
 				// this is a bit hacky but it is much faster than parsing the definition of long mark tags again
 				if len(info.markTagAddStreams) != 0 {
@@ -1401,7 +1403,7 @@ func (mgr *Manager) UpdateTag(name string, operation UpdateTagOperation) error {
 				// a running tagging job might be evaluating a tag that references this one
 				mgr.resetStreamsDuringTaggingJob.Or(tag.Uncertain)
 				mgr.inheritTagUncertainty()
-				mgr.tags[name].Uncertain = bitmask.LongBitmask{}
+				mgr.tags[name].Uncertain = pending
 				mgr.startTaggingJobIfNeeded()
 				mgr.startConverterJobIfNeeded()
 			}
